@@ -57,6 +57,7 @@ def leafFrom (g : Guards) (ty : Ty) (b : Bytes) : Option (R Node) :=
       | _ => if isNone v then pure (.leaf v .plain) else .error .valueError)
   | .bstr => some (.ok (.leaf (.bstr b) .hex))
   | .hex => some (.ok (.leaf (.bstr b) .hex))
+  | .rawBstr => some (.ok (.leaf (.bstr b) .rawHex))
   | .uuid => some (if b.length = 16 then .ok (.leaf (.bstr b) .rawHex) else .error .valueError)
   | .emptyBstr => some (if b.length > 0 then .error .valueError else .ok .emptyRaw)
   | .bchar => some (
@@ -132,12 +133,12 @@ end
 /-- names given by `SuitTupleNamed.to_obj`: metadata keys in order, a trailing `name*` expanding to
 `name1, name2, …` -/
 def tupleNames (keys : List String) (n : Nat) : List String :=
-  let dyn := keys.getLast?.bind (fun k => if k.contains '*' then some k else none)
+  let dyn := keys.getLast?.bind (fun k => if hasStar k then some k else none)
   (List.range n).map (fun i =>
     match keys[i]? with
-    | some k => k.replace "*" "1"
+    | some k => replaceStar k "1"
     | none => match dyn with
-      | some d => d.replace "*" (toString (i - keys.length + 2))
+      | some d => replaceStar d (toString (i - keys.length + 2))
       | none => "?")   -- GeneratorError "too many elements": unreachable, `from_cbor` never builds more
 
 mutual
